@@ -117,7 +117,11 @@ class XferWorld:
         cfg.cwd = cwd
         cfg.stdout, cfg.stderr = io.StringIO(), io.StringIO()
         self.send_cfg = cfg
-        d = cmd_send.send(cfg, reactor=reactor)
+        if self.dispatch:
+            # through the command-line front end's error interpreter (cli._dispatch_command): what the user is told, exit status
+            d = cli._dispatch_command(reactor, cfg, lambda: cmd_send.send(cfg, reactor=reactor))
+        else:
+            d = cmd_send.send(cfg, reactor=reactor)
         d.addBoth(lambda r: self.results.__setitem__("send", r))
         return cfg
 
@@ -133,9 +137,14 @@ class XferWorld:
         cfg.stdout, cfg.stderr = io.StringIO(), io.StringIO()
         self.recv_cfg = cfg
         self._answers = list(answers)
-        d = cmd_receive.receive(cfg, reactor=reactor)
+        if self.dispatch:
+            d = cli._dispatch_command(reactor, cfg, lambda: cmd_receive.receive(cfg, reactor=reactor))
+        else:
+            d = cmd_receive.receive(cfg, reactor=reactor)
         d.addBoth(lambda r: self.results.__setitem__("recv", r))
         return cfg
+
+    dispatch = False     # True: the commands run under cli._dispatch_command as `wormhole ...` runs them
 
     # ---- scheduler
     mb_rng = None        # set: the order in which the mailbox connections are served is the schedule's choice
